@@ -32,6 +32,11 @@ Call == /\ Is("Call") /\ Ev.peer
 ConcCall == /\ Is("ConcCall")
             /\ bad' = bad \cup (IF ~Ev.peer /\ (Ev.result = "ok" \/ Ev.got_share) THEN {<<"nonpeer", l, Ev.msg, Ev.result>>} ELSE {})
             /\ UNCHANGED st
+\* C17 under concurrent arrival: several peers' prepare messages for ONE fresh name at the same moment - a generation is active from the
+\* first accepted one on, so exactly one of them is accepted whatever the interleaving
+ConcPrepare == /\ Is("ConcPrepare")
+               /\ bad' = bad \cup (IF Ev.accepted = 1 THEN {} ELSE {<<"class", l, "prepare", "one accepted", Ev.accepted>>})
+               /\ UNCHANGED st
 \* C16 "shares go to their owner": a process service sent a key-generation message (a share) to a name:port that is not the one its
 \* configuration gives for that identifier
 Misdelivery == /\ Is("Misdelivery")
@@ -40,8 +45,8 @@ Misdelivery == /\ Is("Misdelivery")
 Exists == /\ Is("Exists")
           /\ bad' = IF st[Ev.account].exists = Ev.exists THEN bad ELSE bad \cup {<<"exists", l, Ev.account>>}
           /\ UNCHANGED st
-Other == l <= Len(Trace) /\ Ev.ev \notin {"Begin", "Call", "ConcCall", "Misdelivery", "Exists"} /\ l' = l + 1 /\ UNCHANGED <<st, bad>>
-Next == Begin \/ Call \/ NonPeerCall \/ ConcCall \/ Misdelivery \/ Exists \/ Other
+Other == l <= Len(Trace) /\ Ev.ev \notin {"Begin", "Call", "ConcCall", "ConcPrepare", "Misdelivery", "Exists"} /\ l' = l + 1 /\ UNCHANGED <<st, bad>>
+Next == Begin \/ Call \/ NonPeerCall \/ ConcCall \/ ConcPrepare \/ Misdelivery \/ Exists \/ Other
 Spec == Init /\ [][Next]_vars
 HighWater == TLCSet(1, IF l > TLCGet(1) THEN l ELSE TLCGet(1))
 Accepted == TLCGet(1) = Len(Trace) + 1
